@@ -194,9 +194,37 @@ def runTransform (j : Json) : Except String Json := do
                      ("held", Json.arr ((TransformWrite.heldNumbers s).map ratJson).toArray),
                      ("read", Json.arr ((Spec.trRead deg (TransformWrite.heldNumbers s).length entries).map ratJson).toArray)]
 
+/-- unit U-transform-history: the transform as it was read, then the whole history (setters, assignments in the arrays
+    the getters hand out, writes with the nodes each write left): what the model holds and writes at every write -/
+def runTransformHistory (j : Json) : Except String Json := do
+  let ratsOf (v : Json) : Except String (List Rat) := do
+    (← v.getArr?).toList.mapM fun x => do pure (← getNum x).toRat
+  let nodesOf (v : Json) : Except String (List (Option Rat)) := do
+    (← v.getArr?).toList.mapM fun x => do pure ((← getOptNum x).map (·.toRat))
+  let s : TransformWrite.State := {
+    inDegrees := ← (← j.getObjVal? "deg").getBool?, mainToAux := ← (← j.getObjVal? "m2a").getBool?,
+    nodes := ← nodesOf (← j.getObjVal? "nodes"), disp := ← ratsOf (← j.getObjVal? "disp"), rot := ← ratsOf (← j.getObjVal? "rot") }
+  let es ← (← (← j.getObjVal? "ops").getArr?).toList.mapM fun o => do
+    let a ← o.getArr?
+    match a[0]? with
+    | some (Json.str "deg") => pure (TransformWrite.Edit.setDegrees (← a[1]!.getBool?))
+    | some (Json.str "rot") => pure (TransformWrite.Edit.setRotation (← ratsOf a[1]!))
+    | some (Json.str "disp") => pure (TransformWrite.Edit.setDisplacement (← ratsOf a[1]!))
+    | some (Json.str "rot_at") => pure (TransformWrite.Edit.rotationAt (← a[1]!.getNat?) (← getNum a[2]!).toRat)
+    | some (Json.str "disp_at") => pure (TransformWrite.Edit.displacementAt (← a[1]!.getNat?) (← getNum a[2]!).toRat)
+    | some (Json.str "write") => pure (TransformWrite.Edit.write (← nodesOf a[1]!))
+    | _ => throw "transform-history: unknown step"
+  let writes := (TransformWrite.writesOf s es).map fun (w : TransformWrite.State × List (Option Rat)) =>
+    Json.mkObj [("deg", Json.bool w.1.inDegrees), ("disp", Json.arr (w.1.disp.map ratJson).toArray),
+                ("rot", Json.arr (w.1.rot.map ratJson).toArray), ("entries", Json.arr (w.2.map optRat).toArray),
+                ("held", Json.arr ((TransformWrite.heldNumbers w.1).map ratJson).toArray),
+                ("read", Json.arr ((Spec.trRead w.1.inDegrees (TransformWrite.heldNumbers w.1).length w.2).map ratJson).toArray)]
+  return Json.mkObj [("writes", Json.arr writes.toArray)]
+
 def runCase (j : Json) : Except String Json := do
   match j.getObjVal? "unit" with
   | .ok (Json.str "transform") => runTransform j
+  | .ok (Json.str "transform-history") => runTransformHistory j
   | .ok (Json.str "pyformat") => runPyFormat j
   | .ok (Json.str "state") => runState j
   | .ok (Json.str "read") =>
